@@ -152,13 +152,14 @@ def isLow {α : Type} (r : R α) : Bool :=
   | _ => false
 
 /-- `get_DIE_by_sig8`: `Model.C04.dieBySig8` with the marked fetch on the scanned type units — `typeUnits` is
-    `sectionUnits w S0 w.types true`, so this is `Model.C04.sig8Lookup fetch w S0 sig` (Props/C04
-    `ref_sig8_debug_types`) without rescanning the section for every reference -/
+    `Model.C04.sigUnits w S0` (the units of `.debug_types`, then the DWARF 5 type units of `.debug_info`), so this is
+    `Model.C04.sig8Lookup fetch w S0 sig` (Props/C04 `ref_sig8_debug_types`, `ref_sig8_debug_info_v5`) without
+    rescanning the sections for every reference -/
 def sigRef (typeUnits : List (Lookup.CU × R UnitCtx) × Option Err) (sig : Int) : R (Nat × DieObs) :=
   dieBySig8 fetch typeUnits.1 typeUnits.2 sig
 
 /-- iterate one unit and run the queries of the canonical order -/
-def runUnit (w : World) (infoUnits typeUnits : List (Lookup.CU × R UnitCtx) × Option Err)
+def runUnit (w : World) (infoUnits sigU : List (Lookup.CU × R UnitCtx) × Option Err)
     (cu : Lookup.CU) (rU : R UnitCtx) (rDies : R (List (DieObs × Option Nat))) (st : QState) : Json × QState :=
   match rU with
   | .error e => (Json.mkObj [("hdr", cuHdrJson cu), ("dies", errJson e)], st)
@@ -183,7 +184,7 @@ def runUnit (w : World) (infoUnits typeUnits : List (Lookup.CU × R UnitCtx) × 
               | .ok (.unitRel x) => (acc ++ [refResJson (do let d ← unitDIEFromRefaddr U x; return (U.cuOffset, d))], st)
               | .ok (.section x) => (acc ++ [refResJson (sectionRef infoUnits infoSize x)], st)
               | .ok (.sig8 s) =>
-                let r := sigRef typeUnits s
+                let r := sigRef sigU s
                 (acc ++ [refResJson r], { st with low := st.low || isLow r })
             else (acc, st)
           | _ => (acc, st)) (acc, st)) (([] : List Json), st)
@@ -198,14 +199,15 @@ def runWorld (w : World) : Except String Json := do
   let some S0 := Model.dwarfStructsFor ⟨w.le, 32, w.dasz, 2⟩ | throw "no default bundle"
   let infoUnits := unitsOf w S0 w.info false
   let typeUnits := unitsOf w S0 w.types true
+  let sigU := sigUnits w S0
   -- `[(cu, list(cu.iter_DIEs())) for cu in iter_CUs()]`, resp. `iter_TUs()`: the function of `debug_info_exact`
   let infoIter := iterSection fetch w S0 w.info false
   let typeIter := iterSection fetch w S0 w.types true
   let (ij, st) := (infoUnits.1.zip infoIter.1).foldl (fun (acc, st) ((cu, rU), (_, rDies)) =>
-    let (j, st') := runUnit w infoUnits typeUnits cu rU rDies st
+    let (j, st') := runUnit w infoUnits sigU cu rU rDies st
     (acc ++ [j], st')) (([] : List Json), ({} : QState))
   let (tj, st) := (typeUnits.1.zip typeIter.1).foldl (fun (acc, st) ((cu, rU), (_, rDies)) =>
-    let (j, st') := runUnit w infoUnits typeUnits cu rU rDies st
+    let (j, st') := runUnit w infoUnits sigU cu rU rDies st
     (acc ++ [j], st')) (([] : List Json), st)
   let hook := (infoUnits.1 ++ typeUnits.1).any fun (_, rU) => match rU with | .ok U => topHookFails U | .error _ => false
   return Json.mkObj [("top_hook_fails", Json.bool hook), ("low_fetch", Json.bool st.low),
